@@ -54,6 +54,14 @@ def run(ctx):
                                     alphabet_pool=("A01", "Am201", "A3210"), n_seeded=1,
                                     depths_quick=(7, 6, 5, 5, 4), depths_thorough=(9, 8, 7, 6, 6))
     res, agg = solverexp.execute(tasks)
+    # Solve with each shipped painting listener attached (they probe the objective and draw through the optimum when
+    # the method stops): the returned Solution / the record must still be those of the search trials
+    from mc import painters
+    from mc.common import pmap
+    ptasks = painters.tasks(ctx.thorough)
+    for t, o in zip(ptasks, pmap(painters.case, ptasks, chunksize=2)):
+        for m in o["c04"]:
+            res.add_violation(dict(driver="painter", **t, message=m, sig={}))
     rtasks = []
     for N in (1, 2, 3) if not ctx.thorough else (1, 2, 3, 4, 5):
         for env in ("abs13", "lin", "neglin", "quad", "sin", "stair", "const"):
@@ -74,7 +82,7 @@ def run(ctx):
              "(member of the log, value equals the answer there, no smaller answer) from outside, inside OnEndIteration, "
              "inside OnMethodStop of a Solve twin and on the returned Solution; non-trivial = executions whose optimum "
              "moved after the first trial or whose minimum value is attained by several trials",
-        exhaustive=True, bounds=solverexp.describe(tasks), resolution_horizon_stops=agg["horizon_stops"],
+        exhaustive=True, painter_runs=len(ptasks), bounds=solverexp.describe(tasks), resolution_horizon_stops=agg["horizon_stops"],
         samples=[dict(cfg=t["cfg"], alphabet=t.get("alphabet"), prefix=t.get("prefix"), depth=t.get("depth"))
                  for t in tasks[:2]] + rtasks[:2],
     )
@@ -83,6 +91,9 @@ def run(ctx):
 
 
 def replay(rec):
+    if rec.get("driver") == "painter":
+        from mc import painters
+        return painters.case(rec)["c04"]
     if rec["driver"] == "refine":
         return refine_case(rec["cfg"])
     return solverexp.replay(rec, VIS)
